@@ -46,10 +46,11 @@ def sname(s):
 
 BODY = """    cdef {T} i = 77
     cdef bint ran_else = False
+    cdef int nvisit = 0
     log = []
     for i in {ITER}:
-        log.append(i)
-        if len(log) >= brk: break
+        log.append(i); nvisit += 1
+        if nvisit >= brk: break
         if i & 1: continue
         log.append('e')
     else:
@@ -186,9 +187,10 @@ def py_loop(vals, brk, init=INIT):
     log = []
     i = init
     ran_else = False
+    n = 0
     for i in vals:
-        log.append(i)
-        if len(log) >= brk:
+        log.append(i); n += 1
+        if n >= brk:
             break
         if i & 1:
             continue
@@ -258,30 +260,54 @@ def classify(case):
         if leaves_type(kind, case["w"], case["sg"], case.get("cw", case["w"]), case.get("csg", case["sg"]),
                        case["a"], case["b"], case["s"]):
             return "typed_range_wraps_at_type_bound"
-    if kind == "enum" and case.get("kw") and not (rng_of(case["kw"], case["ksg"])[0] <= case["start"] and
-                                                   case["start"] + range_len(case["a"], case["b"], case["s"]) <= rng_of(case["kw"], case["ksg"])[1]):
-        return "typed_enumerate_counter_wraps"
     return "wrong_iteration_" + kind
 
 
 DRIVER = r"""
 import sys, json, importlib
-jobs = json.load(sys.stdin)
-out = []
+spec = json.load(sys.stdin)
+jobs = spec["jobs"]
 mods = {}
-for mn, fn, argl in jobs:
+for ji in range(spec["start"], len(jobs)):
+    mn, fn, argl = jobs[ji]
     m = mods.get(mn) or mods.setdefault(mn, importlib.import_module(mn))
     f = getattr(m, fn)
     res = []
-    for args in argl:
+    for ai, args in enumerate(argl):
+        if ai < spec["skip"].get(str(ji), 0):
+            res.append({"e": "CRASH", "m": "process died in this call"}); continue
+        sys.stderr.write("@ %d %d\n" % (ji, ai)); sys.stderr.flush()
         try:
             r = f(*args)
             res.append(list(r))
         except Exception as e:
             res.append({"e": type(e).__name__, "m": str(e)[:120]})
-    out.append(res)
-sys.stdout.write("\n" + json.dumps(out) + "\n")
+    sys.stdout.write("\n" + json.dumps([ji, res]) + "\n"); sys.stdout.flush()
 """
+
+
+def run_jobs(ctx, jobs):
+    """run all jobs in a subprocess; a call that kills the process is recorded as CRASH and the run resumes"""
+    results = [None] * len(jobs)
+    start, skip, crashes = 0, {}, []
+    while start < len(jobs) and len(crashes) < 20:
+        r = cybuild.run_script(DRIVER, ctx.workdir, stdin_obj={"jobs": jobs, "start": start, "skip": skip}, timeout=1500)
+        for line in r["out"].splitlines():
+            if line.startswith("["):
+                ji, res = json.loads(line)
+                results[ji] = res
+        done = [i for i in range(len(jobs)) if results[i] is not None]
+        start = (max(done) + 1) if done else start
+        if r["rc"] == 0 and start >= len(jobs):
+            break
+        marks = [l for l in r["err"].splitlines() if l.startswith("@ ")]
+        if not marks:
+            return None, "rc=%s %s" % (r["rc"], r["err"][-800:])
+        _, ji, ai = marks[-1].split()
+        crashes.append((int(ji), int(ai), r["rc"]))
+        skip[ji] = int(ai) + 1
+        start = int(ji)
+    return results, crashes
 
 
 def grid_pairs(sg):
@@ -458,11 +484,10 @@ def run(ctx):
     add("c14_misc", "enum0_int", [[a, b, CAP] for a, b in epairs],
         [dict(kind="enum", kw=32, ksg=True, start=0, a=a, b=b, s=1, brk=CAP, where="enumerate") for a, b in epairs])
 
-    r = cybuild.run_script(DRIVER, ctx.workdir, stdin_obj=jobs, timeout=1500)
-    if r["json"] is None:
-        ctx.corr_break("range driver", "all jobs", (r["err"] or r["out"])[-1500:], "results for every job")
+    results, crashes = run_jobs(ctx, jobs)
+    if results is None or any(x is None for x in results):
+        ctx.corr_break("range driver", "all jobs", str(crashes)[-1500:], "results for every job")
         return
-    results = r["json"]
 
     # model queries
     mq = []
@@ -499,6 +524,8 @@ def run(ctx):
                 continue
             # ---- property oracle
             exp = oracle(k in ("revr", "revc"), c["a"], c["b"], c["s"], c["brk"])
+            if exp[0] != "exc" and (k in ("zero", "var") or c.get("reassign")):
+                exp = (strip_e(exp[0]), exp[1], exp[2])      # these bodies write no 'e' markers
             if c.get("reassign") and exp[0] != "exc":
                 log, fin, e = exp
                 if log and not (len(strip_e(log)) >= c["brk"]):
@@ -539,23 +566,24 @@ def _check_enum(ctx, inp, c, got, m):
     else:
         ran_else = True
     n = len(range(a, b, s))
-    fits = (not c["kw"]) or (rng_of(c["kw"], c["ksg"])[0] <= st and st + n <= rng_of(c["kw"], c["ksg"])[1])
-    if got[0] == "exc":
-        # a typed counter cannot take a start value outside its type: OverflowError at conversion time
-        if c["kw"] and not (rng_of(c["kw"], c["ksg"])[0] <= st <= rng_of(c["kw"], c["ksg"])[1]) and got[1] == "OverflowError":
+    if c["kw"]:
+        lo, hi = rng_of(c["kw"], c["ksg"])
+        if not (lo <= st <= hi):
+            # a typed counter cannot take a start value outside its type: OverflowError at conversion time
+            if not (got[0] == "exc" and got[1] == "OverflowError"):
+                ctx.fail("enumerate_start_conversion", inp, _short(got), "OverflowError")
             return
+        if st + max(n - 1, 0) > hi:
+            return          # Python's counter values do not fit the declared C type: outside the property
+    if got[0] == "exc":
         ctx.fail(classify(c), inp, _short(got), _short((log, k, i, ran_else)))
         return
     g = ([list(p) for p in got[0]], got[1], got[2], bool(got[3]))
     if g != (log, k, i, ran_else):
-        if not fits and c["kw"] and c["kw"] >= 32:
-            return      # signed counter overflow is UB in the C text; outside the theorem's hypothesis
         ctx.fail(classify(c), inp, _short(g), _short((log, k, i, ran_else)), note="model " + m[:200])
     if m.startswith("D "):
         body = m[2:].split("|")
         ml = [] if body[0] == "-" else [[int(x) for x in p.split(":")] for p in body[0].split(",")]
-        if c["kw"] and c["kw"] >= 32 and not fits:
-            return
         if (ml, body[1] == "1") != (g[0], g[3]):
             ctx.corr_break("range:enum", inp, _short(g), m[:300])
     else:
